@@ -393,6 +393,36 @@ func (m *obsModel) observe(n *e1Node, e *logEntry, outs []outMsg, before *priv) 
 			if s.LastClientID != msg.ClientMessageId {
 				r.violate("C10", "marker-not-advanced", "marker-not-advanced:"+cmdOf(e), fmt.Sprintf("index %d (%s): client message id %d applied, duplicate marker is %d", e.Index, descr(e), msg.ClientMessageId, s.LastClientID))
 			}
+			// what the POST handler and the state machine consult to recognise a repeat, for every kind of session
+			if got := n.irc.LastPostMessage(robust.Id{Id: msg.Session.Id}); got != msg.ClientMessageId {
+				role := "client"
+				if s.Server {
+					role = "services link"
+				}
+				r.violate("C10", "marker-not-advanced", "last-post-message-wrong:"+role, fmt.Sprintf("index %d (%s): client message id %d of a %s session applied, LastPostMessage answers %d: a repeat of this POST would not be recognised", e.Index, descr(e), msg.ClientMessageId, role, got))
+			}
+		}
+		// an entry repeating the id of the session's last applied message is a retry: it is not applied again
+		if sb := before.Sess[[2]uint64{msg.Session.Id, 0}]; sb != nil && msg.ClientMessageId != 0 && sb.LastClientID == msg.ClientMessageId {
+			r.res.Add("repeated_ids_in_log", 1)
+			if len(outs) > 0 {
+				r.violate("C10", "retry-applied-twice", "repeat-produced-output:"+cmdOf(e), fmt.Sprintf("index %d (%s) repeats client message id %d, the last one applied for its session, and produced output again: %s", e.Index, descr(e), msg.ClientMessageId, trunc(outString(outs), 300)))
+			}
+		}
+	}
+	// C17: a session is gone once the entry that ends it has been applied
+	if sb := before.Sess[[2]uint64{msg.Session.Id, 0}]; sb != nil {
+		ends := msg.Type == robust.DeleteSession
+		if msg.Type == robust.IRCFromClient && !sb.Server && !(msg.ClientMessageId != 0 && sb.LastClientID == msg.ClientMessageId) {
+			if pm := irc.ParseMessage(msg.Data); pm != nil && strings.ToUpper(pm.Command) == "QUIT" {
+				ends = true
+			}
+		}
+		if ends {
+			r.res.Add("session_endings_checked", 1)
+			if _, still := after.Sess[[2]uint64{msg.Session.Id, 0}]; still {
+				r.violate("C17", "ended-session-still-exists", "ended-session-still-exists:"+cmdOf(e), fmt.Sprintf("index %d (%s): session %d (nick %q, registered=%v) still exists after the entry that ends it", e.Index, descr(e), msg.Session.Id-off, sb.Nick, sb.LoggedIn))
+			}
 		}
 	}
 
